@@ -46,6 +46,30 @@ def key_of(defn, msg):
     return (msg.id, tuple(ks))
 
 
+def ref_key(defn, p):
+    """the key read from the payload bits by the database layout (independent of what the decoder reports); None when a key
+    field holds a reserved / out-of-range raw, where several raws legitimately read as 'no value'"""
+    ks = []
+    for f in defn.fields:
+        if not f.pk:
+            continue
+        if f.bits is None or f.offset is None:
+            return None
+        raw = (p >> f.offset) & ((1 << f.bits) - 1)
+        if f.type in refdb.NUMERIC:
+            rr = f.raw_range()
+            sv = f.to_signed(raw)
+            if rr is None or not (rr[0] <= sv <= rr[1]):
+                return None
+        elif f.type == "LOOKUP":
+            if f.bits >= 2 and raw >= (1 << f.bits) - 2:
+                return None
+        else:
+            return None
+        ks.append(raw)
+    return (defn.id, tuple(ks)) if ks else None
+
+
 def cases_for(defn, seed, deep=False):
     alph = [payloads.field_alphabet(f, seed)[:(40 if f.pk else (12 if deep else 5))] for f in defn.fields]
     seen = set()
@@ -62,6 +86,20 @@ def cases_for(defn, seed, deep=False):
                 yield combo, p, n
         keys = [i for i, f in enumerate(defn.fields) if f.pk and f.match is None]
         non = [i for i, f in enumerate(defn.fields) if not f.pk and f.match is None]
+        # every key field with each single bit set, alone and on top of raw 1 (a key read with too few bits makes two of these meet)
+        if b == "mid":
+            for ki in keys:
+                fk = defn.fields[ki]
+                if not isinstance(base[ki], int) or fk.bits is None:
+                    continue
+                for bit in range(fk.bits):
+                    for v0 in (0, 1):
+                        a = list(base)
+                        a[ki] = v0 ^ (1 << bit)
+                        p, n = payloads.build(defn, a)
+                        if (p, n) not in seen:
+                            seen.add((p, n))
+                            yield (ki,), p, n
         # two key fields at once over a grid of small raws: keys such as (1, 12) and (11, 2) must not meet
         if b == "mid":
             small = list(range(0, 13)) + [20, 21, 100, 101, 110, 111, 112, 120, 121]
@@ -129,7 +167,7 @@ def _task(args):
     A = mapped_decoder()
     B = mapped_decoder(preferred_units=PREFS)
     OFF = NMEA2000Decoder()
-    h2k, k2h = {}, {}
+    h2k, k2h, h2r = {}, {}, {}
     vios = []
     st = {"cases": 0, "hashed": 0, "nontrivial": 0, "variants": 0, "key_defs": 0}
     sample = None
@@ -167,6 +205,12 @@ def _task(args):
                 v("hash_not_function_of_key", defn, p, n, f"key {k} hashed to {k2h[k]} and to {m.hash}", {"mechanism": "same key, different hash"})
             h2k.setdefault(m.hash, k)
             k2h.setdefault(k, m.hash)
+            rk = ref_key(ddef, p) if ddef is defn else None
+            if rk is not None:
+                if m.hash in h2r and h2r[m.hash] != rk:
+                    v("hash_collision", defn, p, n, f"hash {m.hash} stands for payload key bits {h2r[m.hash]} and for {rk} (key fields read from the payload by the database layout)",
+                      {"mechanism": "distinct payload keys, same hash"})
+                h2r.setdefault(m.hash, rk)
             # variants: other source / priority / destination / unit preferences / decoder instance / map off
             if first or st["hashed"] % 4 == 0:
                 for label, dec, kw in (("source 2, priority 6", A, dict(src=2, prio=6)), ("destination 17", A, dict(dst=17)),
@@ -183,14 +227,15 @@ def _task(args):
                         except Exception:  # noqa: BLE001
                             m4 = None
                         st["variants"] += 1
-                        if m4 is None or m4.hash != m.hash:
+                        # only where the other entry point yields the same kind of message (whether it does is C07's subject)
+                        if m4 is not None and (m4.PGN, m4.id) == (m.PGN, m.id) and m4.hash != m.hash:
                             v("hash_depends_on_context", defn, p, n, f"through {ename}: hash {getattr(m4, 'hash', None)!r} vs {m.hash!r}", {"variant": "entry point " + ename})
                 m3 = dec_line(OFF, defn.pgn, p, n)
                 st["variants"] += 1
                 if m3 is not None and m3.hash is not None:
                     v("hash_without_map", defn, p, n, f"network mapping off but hash = {m3.hash!r}")
                 if first and len(xproc) < 4:
-                    xproc.append((defn.pgn, p.to_bytes(n, "little").hex(), m.hash))
+                    xproc.append((defn.pgn, p.to_bytes(n, "little").hex(), m.hash, m.id))
                 first = False
             if sample is None and combo and any(ddef.fields[i].pk for i in combo if i < len(ddef.fields)):
                 sample = {"pgn": defn.pgn, "definition": m.id, "payload_hex": p.to_bytes(n, "little").hex(), "key": list(k[1]), "hash": m.hash}
@@ -206,10 +251,10 @@ sys.path.insert(0, sys.argv[1]); sys.path.insert(1, sys.argv[2])
 from mc.props.c17 import mapped_decoder, dec_line
 d = mapped_decoder()
 out = []
-for pgn, hx, h in json.load(sys.stdin):
+for pgn, hx, h, _mid in json.load(sys.stdin):
     b = bytes.fromhex(hx)
     m = dec_line(d, pgn, int.from_bytes(b, 'little'), len(b))
-    out.append(m.hash if m is not None else None)
+    out.append([m.id, m.hash] if m is not None else None)
 print(json.dumps(out))
 """
 
@@ -246,7 +291,10 @@ def run(ctx):
     if r.returncode != 0:
         raise RuntimeError("cross-process child failed: " + r.stderr[-500:])
     other = json.loads(r.stdout.strip().splitlines()[-1])
-    for (pgn, hx, h), h2 in zip(xproc, other):
+    for (pgn, hx, h, mid), o2 in zip(xproc, other):
+        if o2 is None or o2[0] != mid:
+            continue                      # the other process decoded another kind of message: not the hash's doing
+        h2 = o2[1]
         if h != h2:
             vios.append({"kind": "hash_differs_between_processes", "facts": {"pgn": pgn}, "signature": f"xproc:{pgn}",
                          "detail": f"[PGN {pgn} payload={hx[:60]}] {h} in this process, {h2} in a second process", "case": {"pgn": pgn, "payload_hex": hx}})
